@@ -69,21 +69,59 @@ def _gl_cfg(name, ids, mindist, nsamples, ncalls, recheck=True, locked=True, inv
     return p
 
 
+# ----------------------------------------------------------------------------- build
+
+def _build():
+    """Like vlib.build_harness("inputstates"), but compile and link are separate steps so that
+    ccache can serve the object file when neither the harness nor any header it includes changed
+    (ccache hashes the included headers: an edit in REPO/src is still always picked up)."""
+    import subprocess
+    import time
+    libdir = vlib.build_lib("plain")
+    src = os.path.join(vlib.HARNESS, "inputstates.cpp")
+    bindir = vlib.ensure_dir(os.path.join(vlib.WORK, "bin"))
+    out = os.path.join(bindir, "inputstates")
+    obj = out + ".%d.o" % os.getpid()
+    t0 = time.time()
+    cc = ["ccache", "g++", "-std=c++17", "-O1", "-g", "-D" + vlib.GUARD, "-Wno-deprecated-declarations",
+          "-I" + os.path.join(vlib.REPO, "src"), "-I" + os.path.join(vlib.WORK, "build-plain", "src"),
+          "-I/usr/include/eigen3", "-I" + os.path.join(vlib.HARNESS, "common"), "-c", src, "-o", obj]
+    env = vlib._ccache_env()
+    r = subprocess.run(cc, env=env, stdout=subprocess.PIPE, stderr=subprocess.STDOUT, text=True, cwd=vlib.VERIF)
+    if r.returncode != 0:
+        raise FrameworkError("harness inputstates failed to compile against %s:\n%s" % (vlib.REPO, r.stdout[-6000:]))
+    tmp = out + ".tmp%d" % os.getpid()
+    ld = ["g++", obj, "-o", tmp, "-L" + libdir, "-lompl", "-Wl,-rpath," + libdir, "-lboost_serialization",
+          "-lboost_filesystem", "-lboost_system", "-lpthread"]
+    r = subprocess.run(ld, stdout=subprocess.PIPE, stderr=subprocess.STDOUT, text=True)
+    try:
+        os.remove(obj)
+    except OSError:
+        pass
+    if r.returncode != 0:
+        raise FrameworkError("harness inputstates failed to link:\n%s" % r.stdout[-6000:])
+    os.replace(tmp, out)
+    log("[build] harness inputstates in %.1fs" % (time.time() - t0))
+    return out
+
+
 # ----------------------------------------------------------------------------- configurations
 
 def _plan(tier):
     """(graphs to dump and replay, model-check-only runs) of InputStates.tla"""
     if tier == "quick":
         graphs = [  # name, MaxStarts, MaxGoals, start flags, goal flags, kinds, budgets, rebind, replay depth, walks
-            ("starts", 3, 1, ALL, ("ok",), ("states",), (0,), True, "pairs", 1500),
+            ("starts", 3, 1, ALL, ("ok",), ("states",), (0,), False, "pairs", 1500),
             ("goals", 0, 4, ("ok",), ALL, ("states", "region"), (0, 2, 3, 4), False, "pairs", 1500),
-            ("product", 2, 2, ("ok", "inv"), ("ok", "inv"), ("states",), (0, 2), True, "edges", 1500),
+            ("rebind", 2, 1, ("ok", "inv"), ("ok",), ("states",), (0,), True, "pairs", 1500),
+            ("product", 2, 2, ("ok", "inv"), ("ok", "inv"), ("states",), (0, 2), False, "pairs", 1500),
         ]
         mcs = [("mc-product", 2, 2, ALL, ALL, ("states", "region"), (0, 2), True, 2)]
     else:
         graphs = [
             ("starts", 3, 2, ALL, ("ok", "inv"), ("states",), (0, 2), True, "pairs", 20000),
             ("goals", 1, 4, ("ok", "inv"), ALL, ("states", "region"), (0, 1, 2, 3, 4), False, "pairs", 20000),
+            ("rebind", 2, 1, ALL, ("ok",), ("states", "region"), (0,), True, "pairs", 20000),
             ("product", 2, 2, ALL, ALL, ("states", "region"), (0, 2), True, "pairs", 20000),
         ]
         mcs = [("mc-product33", 3, 3, ALL, ALL, ("states", "region"), (0, 2, 3), True, max(2, vlib.NCPU - 2))]
@@ -131,8 +169,7 @@ def _gl_runs(tier):
     if tier == "quick":
         return [("safety", _gl_cfg("safety", (1, 2, 3), 1, 3, 2), 2, None),
                 ("liveness", _gl_cfg("liveness", (1,), 0, 2, 2, props=live), 1, None),
-                ("neg-norecheck", _gl_cfg("neg-norecheck", (1,), 0, 1, 1, recheck=False), 1, "ContractKept"),
-                ("neg-nolock", _gl_cfg("neg-nolock", (1,), 0, 1, 1, locked=False), 1, "ContractKept")]
+                ("neg-norecheck", _gl_cfg("neg-norecheck", (1,), 0, 1, 1, recheck=False), 1, "ContractKept")]
     return [("safety", _gl_cfg("safety", (1, 2, 3), 1, 4, 3), max(2, vlib.NCPU // 2), None),
             ("safety-eps", _gl_cfg("safety-eps", (1, 2), 0, 4, 3), 2, None),
             ("liveness", _gl_cfg("liveness", (1, 2), 0, 3, 2, props=live), 2, None),
@@ -310,7 +347,7 @@ def input_states(ck, tier):
     acts = {}
     pool = cf.ThreadPoolExecutor(max_workers=max(2, vlib.NCPU))
     try:
-        f_build = pool.submit(build_harness, "inputstates", True)
+        f_build = pool.submit(_build)
         f_graphs = [pool.submit(_dump_graph, g) for g in graphs]
         f_mcs = [pool.submit(_mc, m) for m in mcs]
         f_gl = [pool.submit(_gl, r) for r in glruns]
@@ -382,7 +419,7 @@ def replay(path):
         fails = sorted({c for b in bad for c in b["failed"]})
         print("re-validated:", ("REJECTED %s" % fails) if fails or not acc else "accepted")
         return 1 if fails or not acc else 0
-    binary = build_harness("inputstates", True)
+    binary = _build()
     if path.endswith(".ndjson"):
         rc, out, err = run_cmd([binary, "replay", path, "edges", "200", "standalone", "states"])
         print(out[-3000:])
